@@ -62,7 +62,55 @@ ASSUMPTIONS = ['a storage couples intervals through its level only; with start l
 
 def cases(tier, seed):
     lst = THOROUGH if tier == 'thorough' else QUICK
-    return [(cid, dict(shape=SHAPE_OF[cid], kw=dict(kw), split=split, coupled=coupled)) for cid, kw, split, coupled in lst]
+    out = [(cid, dict(shape=SHAPE_OF[cid], kw=dict(kw), split=split, coupled=coupled)) for cid, kw, split, coupled in lst]
+    # the same split asked for in other words: interval size spelled differently, prices as a dict of arrays instead of a DataFrame
+    out.append(('interval_size_spelled_in_minutes', dict(shape='two_node', kw=dict(T=4), split='2h', coupled=('forms', 'size', '120min'))))
+    out.append(('interval_size_day_vs_24h', dict(shape='uncoupled', kw=dict(T=4, freq='12h', wacc=True), split='d', coupled=('forms', 'size', '24h'))))
+    out.append(('prices_as_dict_of_arrays', dict(shape='uncoupled', kw=dict(T=4, wacc=True), split='2h', coupled=('forms', 'prices', 'dict'))))
+    return out
+
+
+def build_forms(D, shape, kw, split, what, alt):
+    sh = shapes.build_portfolio(D, shape, **kw)
+    a = sh.portf.setup_split_optim_problem(pd.DataFrame(sh.prices), sh.tg, interval_size=split)
+    sh2 = shapes.build_portfolio(D, shape, **kw)
+    if what == 'size':
+        b = sh2.portf.setup_split_optim_problem(pd.DataFrame(sh2.prices), sh2.tg, interval_size=alt)
+    else:
+        b = sh2.portf.setup_split_optim_problem(dict(sh2.prices), sh2.tg, interval_size=split)
+    return a, b
+
+
+def run_forms(rec, seed, shape, kw, split, what, alt):
+    from .c10 import compare
+    res = lift.explore_build(lambda D: build_forms(D, shape, kw, split, what, alt), level='A')
+    rec.paths = len(res)
+    for pi, (path, D) in enumerate(res):
+        P = 'p%d' % pi
+        if path.exc is not None:
+            if common.is_rejection(path.exc):
+                rec.rejected_paths += 1
+                continue
+            common.crash_candidate(rec, P + '/crash', path, D, info=dict(kind='crash'))
+            continue
+        a, b = path.result
+        base = list(D.pre) + path.pc + sym.atom_constraints()
+        if rec.vacuity(P, base) is None:
+            continue
+        rec.twin(P, base, z3.BoolVal(False))
+        if len(a.ops) != len(b.ops):
+            rec.obligations.append(dict(name=P + '/intervals', verdict='sat', secs=0, form='Q2'))
+            rec.candidates.append(dict(name=P + '/intervals', env={}, info=dict(kind='forms', why='%d vs %d interval problems' % (len(a.ops), len(b.ops))), form='struct'))
+            continue
+        for k_, (x_, y_) in enumerate(zip(a.ops, b.ops)):
+            goals = compare(rec, P, base, x_, y_)
+            nm = P + '/same_interval_problem/%d' % k_
+            if not goals:
+                rec.obligations.append(dict(name=nm, verdict='unsat', secs=0, form='Q2'))
+                rec.distinct.add(nm)
+            else:
+                rec.prove_each(nm, base, [(lab, g, dict(kind='forms', label=lab, interval=k_)) for lab, g in goals], form='Q2')
+    return rec.result()
 
 
 def interval_steps(tg, split):
@@ -162,6 +210,8 @@ def split_mapping_check(sc, tg, ivs):
 
 def run_case(case_id, tier, seed, shape, kw, split, coupled):
     rec = lpsem.Rec(PROP, case_id)
+    if isinstance(coupled, (tuple, list)) and coupled[0] == 'forms':
+        return run_forms(rec, seed, shape, dict(kw), split, coupled[1], coupled[2])
     eao = lift.import_eao()
     kw = dict(kw)
     shape_b = shape
@@ -215,6 +265,10 @@ def run_case(case_id, tier, seed, shape, kw, split, coupled):
 
 def observe(case, kwargs, env, rq):
     from .. import obs
+    if isinstance(kwargs.get('coupled'), (tuple, list)) and kwargs['coupled'][0] == 'forms':
+        D = lift.Domain(theta=env)
+        a, b = build_forms(D, kwargs['shape'], dict(kwargs['kw']), kwargs['split'], kwargs['coupled'][1], kwargs['coupled'][2])
+        return dict(first=[obs.problem_obs(o_) for o_ in a.ops], second=[obs.problem_obs(o_) for o_ in b.ops])
     D = lift.Domain(theta=env)
     sc = scen.run(D, kwargs['shape'], kwargs['kw'], split=kwargs['split'], with_output=False, env=env)
     o = scen.observation(sc)
@@ -255,6 +309,10 @@ def judge(case, kwargs, cand, ans):
     if 'error' in ans:
         return None, ans['error']
     o = ans['obs']
+    if info.get('kind') == 'forms':
+        from .. import replay
+        d = replay.diff(o['first'], o['second'])
+        return (True, 'the two ways of asking for the same split give different interval problems: %s' % d) if d else (False, 'identical on the unshimmed code')
     if info.get('kind') == 'mapping':
         # re-evaluate the structural statement on the unshimmed split problem
         probs, gm, ivs = o['problems'], o['split_mapping'], o['ivs']
